@@ -229,6 +229,8 @@ func builtinIntrinsics() map[string]intrinsic {
 	I["runtime.Gosched"] = func(m *Machine, _ *frame, a []Value) Value { m.yield(); return nil }
 	I["(*internal/godebug.Setting).Value"] = func(m *Machine, _ *frame, a []Value) Value { return m.emptyStr }
 	I["internal/godebug.(*Setting).Value"] = I["(*internal/godebug.Setting).Value"]
+	I["internal/stringslite.Clone"] = func(m *Machine, _ *frame, a []Value) Value { return a[0] }
+	I["strings.Clone"] = I["internal/stringslite.Clone"]
 	I["internal/abi.NoEscape"] = func(m *Machine, _ *frame, a []Value) Value { return a[0] }
 	I["internal/abi.Escape"] = func(m *Machine, _ *frame, a []Value) Value { return a[0] }
 	I["runtime.Callers"] = func(m *Machine, _ *frame, a []Value) Value { return m.f.Const(64, 0) }
